@@ -238,6 +238,9 @@ pub struct App {
     /// the control service stays inside every "write back-pressure enabled" notification until gate (G_BP, 0) opens
     pub hold_backpressure: Cell<bool>,
     pub bp_seq: Cell<u32>,
+    /// readiness of the application's publish service itself (server roles, plain publish service): false = not ready
+    pub svc_ready: Cell<bool>,
+    svc_waker: RefCell<Option<Waker>>,
     /// called synchronously when a publish handler is entered (before its first await)
     pub on_pub_enter: RefCell<Option<Rc<dyn Fn(u32)>>>,
     pub pub_seq: Cell<u32>,
@@ -275,6 +278,8 @@ impl App {
             fail_on_backpressure: Cell::new(false),
             hold_backpressure: Cell::new(false),
             bp_seq: Cell::new(0),
+            svc_ready: Cell::new(true),
+            svc_waker: RefCell::new(None),
             on_pub_enter: RefCell::new(None),
             pub_seq: Cell::new(0),
             ctl_seq: Cell::new(0),
@@ -348,6 +353,20 @@ impl App {
                 }
             }
         })
+    }
+    /// the publish service of the application turns not ready / ready again by itself (no inbound packet involved)
+    pub fn set_service_ready(&self, ready: bool) {
+        self.svc_ready.set(ready);
+        if let Some(w) = self.svc_waker.borrow_mut().take() {
+            w.wake();
+        }
+    }
+    /// readiness check of `GatedReady`
+    pub fn poll_service_ready(&self, cx: &mut Context<'_>) -> Poll<()> {
+        // the waker is kept in either case: a service that turns not ready wakes whoever asked last, the way a
+        // service whose resource ran out would (a spurious wake-up is always legitimate)
+        *self.svc_waker.borrow_mut() = Some(cx.waker().clone());
+        if self.svc_ready.get() { Poll::Ready(()) } else { Poll::Pending }
     }
     /// a held "write back-pressure enabled" notification: each waits on a gate of its own
     pub fn wait_backpressure(self: &Rc<Self>) -> impl Future<Output = ()> + 'static {
@@ -740,5 +759,29 @@ where
             }
             None => start = end,
         }
+    }
+}
+
+/// A service whose own readiness the harness controls (`App::set_service_ready`): an application service with a
+/// `ready()` of its own, busy for reasons that have nothing to do with inbound traffic.
+pub struct GatedReady<S> {
+    pub inner: S,
+    pub app: Rc<App>,
+}
+
+impl<S, R> ntex::service::Service<R> for GatedReady<S>
+where
+    S: ntex::service::Service<R>,
+{
+    type Response = S::Response;
+    type Error = S::Error;
+
+    async fn ready(&self, ctx: ntex::service::ServiceCtx<'_, Self>) -> Result<(), S::Error> {
+        std::future::poll_fn(|cx| self.app.poll_service_ready(cx)).await;
+        ctx.ready(&self.inner).await
+    }
+
+    async fn call(&self, req: R, ctx: ntex::service::ServiceCtx<'_, Self>) -> Result<S::Response, S::Error> {
+        ctx.call(&self.inner, req).await
     }
 }
